@@ -668,9 +668,108 @@ def run(chk) -> None:
     _r32e(chk)
     chk.rule("R32f", "in the templaters, attributes are set dynamically (setattr) only on objects created for the call: the receiver of every setattr(..) in core/templaters is a fresh instance, not a class object or another value that outlives the call")
     _r32f(chk)
+    chk.rule("R32g", "every call of a process-wide memoised config loader that is keyed on a path (load_config_file_as_dict, load_config_at_path) passes a path that is absolute by construction (resolve() / abspath() / expanduser('~..') / a reviewed absolute source, kept through str / Path / join / dirname, through locals and through the parameters of module-level helpers): the key identifies the file whatever the working directory")
+    _r32g(chk)
     chk.exhaustive = True
     chk.assumptions.append("CPython ast gives the program's syntax faithfully; the reviewed tables (ARTEFACT_WRITERS, REVIEWED_STATE, REVIEWED_CACHES, REVIEWED_ARG_MUTATIONS in sa/rules/c32.py) were reviewed by hand")
     chk.assumptions.append("calls through values the call graph cannot type are resolved by method name over the whole tree (over-approximation); calls inside lambda bodies and calls made by libraries outside the tree are not followed")
+
+
+_R32G_ABS_MAKERS = ("resolve", "abspath", "realpath", "absolute")
+_R32G_ABS_KEEPERS = ("str", "Path", "expanduser", "dirname", "normpath", "fspath")
+# functions whose return value is an absolute path (read by hand)
+_R32G_REVIEWED_ABS = {"_get_user_config_dir_path": "platformdirs' user config directory (or ~/.config expanded): absolute"}
+
+
+def _r32g_abs(repo, m, f, cfg, e, at, depth: int = 0) -> bool:
+    """``e`` is an absolute path by construction (never relative to the current directory)."""
+    if depth > 14 or e is None:
+        return False
+    if isinstance(e, ast.Call):
+        la = last_attr(e)
+        if la in _R32G_ABS_MAKERS:
+            return True
+        if la in _R32G_REVIEWED_ABS:
+            return True
+        if la in _R32G_ABS_KEEPERS and e.args:
+            a = e.args[0]
+            if la == "expanduser" and isinstance(a, ast.Constant) and isinstance(a.value, str) and a.value.startswith("~"):
+                return True
+            return _r32g_abs(repo, m, f, cfg, a, at, depth + 1)
+        if la == "join" and e.args:
+            return _r32g_abs(repo, m, f, cfg, e.args[0], at, depth + 1)
+        return False
+    if isinstance(e, ast.Name):
+        os_ = origins(cfg, e, at)
+        if not os_:
+            return False
+        for o in os_:
+            if o.kind == "expr" and isinstance(o.expr, ast.AST) and not o.path:
+                if not _r32g_abs(repo, m, f, cfg, o.expr, o.stmt if o.stmt is not None else at, depth + 1):
+                    return False
+            elif o.kind == "param":
+                pname = o.expr.arg if isinstance(getattr(o, "expr", None), ast.arg) else e.id
+                params = [a.arg for a in f.args.posonlyargs + f.args.args + f.args.kwonlyargs]
+                if pname not in params:
+                    return False
+                idx = params.index(pname)
+                sites = []
+                for q2, f2 in m.functions():
+                    for c in calls_in(f2):
+                        if isinstance(c.func, ast.Name) and c.func.id == f.name:
+                            sites.append((f2, c))
+                if not sites:
+                    return False
+                for f2, c in sites:
+                    a = next((k.value for k in c.keywords if k.arg == pname), None)
+                    if a is None and len(c.args) > idx and not any(isinstance(x, ast.Starred) for x in c.args[: idx + 1]):
+                        a = c.args[idx]
+                    cfg2 = cfg_of(f2)
+                    if a is None or not _r32g_abs(repo, m, f2, cfg2, a, cfg2.stmt_of(c), depth + 1):
+                        return False
+            else:
+                return False
+        return True
+    return False
+
+
+def _r32g(chk) -> None:
+    repo = chk.repo
+    cached = {}
+    for m in repo.iter_modules("src/sqlfluff/core/config/"):
+        for q, f in m.functions():
+            decos = [norm(d) for d in f.decorator_list]
+            if any(d.split("(")[0].split(".")[-1] in ("cache", "lru_cache") for d in decos):
+                params = [a.arg for a in f.args.posonlyargs + f.args.args]
+                if params and any(k in params[0].lower() for k in ("path", "file", "dir")):
+                    cached[f.name] = (m, f, params[0])
+    if "load_config_file_as_dict" not in cached:
+        raise AnalysisError("R32g: load_config_file_as_dict is no longer a memoised function of core/config taking a path (anchor refactored)")
+    n = 0
+    for m in repo.iter_modules("src/sqlfluff/"):
+        if not any(name in m.text for name in cached):
+            continue
+        for q, f in m.functions():
+            for c in calls_in(f):
+                name = c.func.id if isinstance(c.func, ast.Name) else (c.func.attr if isinstance(c.func, ast.Attribute) else None)
+                if name not in cached or (isinstance(c.func, ast.Attribute) and c.func.attr in ("cache_clear", "cache_info")):
+                    continue
+                pname = cached[name][2]
+                a = next((k.value for k in c.keywords if k.arg == pname), None) or (c.args[0] if c.args else None)
+                if a is None:
+                    continue
+                n += 1
+                cfg = cfg_of(f)
+                ok = _r32g_abs(repo, m, f, cfg, a, cfg.stmt_of(c))
+                chk.require(
+                    ok, "R32g", c,
+                    f"{q} calls the process-wide memoised {name}() with `{short(a, 60)}`, which is not an absolute path by construction (no resolve() / abspath() on the way): the cache key "
+                    "then depends on the working directory of the moment, and a later lint from another directory that spells its file the same way is served the first file's config",
+                    detail=f"{q}: memoised {name} keyed on an absolute path",
+                )
+    chk.count("R32g.memoised_path_functions", len(cached))
+    chk.count("R32g.call_sites", n)
+    chk.floor("R32g.call_sites", 5)
 
 
 def _r32f(chk) -> None:
@@ -858,6 +957,24 @@ PLACEHOLDER = "src/sqlfluff/core/templaters/placeholder.py"
 CONFIG_INFO = "src/sqlfluff/core/rules/config_info.py"
 
 VARIANTS: List[Variant] = [
+    Variant(
+        "extra-config-cached-under-its-spelling", "src/sqlfluff/core/config/loader.py",
+        "                str(Path(expanded_config_path).resolve())\n",
+        "                os.path.normpath(expanded_config_path)\n",
+        "R32g", "load_config_up_to_path", "seeded C32-7: the same relative --config from two directories shares a cache entry",
+    ),
+    Variant(
+        "home-config-loaded-from-a-relative-spelling", "src/sqlfluff/core/config/loader.py",
+        '        user_config = load_config_at_path(os.path.expanduser("~"))\n',
+        '        user_config = load_config_at_path(os.path.relpath(os.path.expanduser("~")))\n',
+        "R32g", "load_config_up_to_path", "a relative key for the memoised directory loader",
+    ),
+    Variant(
+        "quiet-extra-config-resolved-through-a-local", "src/sqlfluff/core/config/loader.py",
+        "            extra_config = load_config_file_as_dict(\n                str(Path(expanded_config_path).resolve())\n            )\n",
+        "            resolved_extra = os.path.abspath(expanded_config_path)\n            extra_config = load_config_file_as_dict(resolved_extra)\n",
+        "QUIET", None, "abspath through a local",
+    ),
     Variant(
         "libraries-namespace-is-the-class-object", "src/sqlfluff/core/templaters/jinja.py",
         "        libraries = JinjaTemplater.Libraries()\n",
